@@ -10,40 +10,75 @@ import warnings
 
 warnings.filterwarnings("ignore")
 
-NON_RATE = {"mprobs", "length", "rate_shape", "bprobs", "rate", "psubs", "dpsubs", "bin_switch"}
+NON_RATE = {"mprobs", "psmprobs", "length", "rate_shape", "bprobs", "rate", "psubs", "dpsubs", "bin_switch"}
 
 
 def tree_struct(node):
     return [node.name, [tree_struct(c) for c in node.children]]
 
 
+class Refused(Exception):
+    """the model constructor refused the specification (allowed outcome for user-built predicate sets)"""
+
+
+def make_model(case):
+    """named model through get_model (with recode_gaps when the case fixes it), or a directly built one:
+    case["build"] = {kind: nuc|dinuc|codon, mprob_model, motifs (subset) | None,
+                     predicates: "kappa" | "kappa+omega" | [[name, from, to, directed], ...]}"""
+    from cogent3 import get_model
+
+    bins = case.get("bins")
+    kw = {}
+    if "recode_gaps" in case and case["recode_gaps"] is not None:
+        kw["recode_gaps"] = bool(case["recode_gaps"])
+    if bins:
+        kw.update(ordered_param="rate", distribution="gamma")
+    b = case.get("build")
+    if case["model"].startswith("DINUC:"):
+        b = {"kind": "dinuc", "mprob_model": case["model"].split(":")[1], "predicates": "kappa"}
+        kw.setdefault("recode_gaps", True)
+    if not b:
+        return get_model(case["model"], **kw)
+    from cogent3.evolve import substitution_model as SM
+    from cogent3.evolve.predicate import MotifChange, replacement
+
+    spec = b.get("predicates", "kappa")
+    if isinstance(spec, str):
+        preds = [(MotifChange("A", "G") | MotifChange("C", "T")).aliased("kappa")]
+        if "omega" in spec:
+            preds.append(replacement.aliased("omega"))
+    else:
+        preds = [MotifChange(x, y, forward_only=bool(d)).aliased(nm) for nm, x, y, d in spec]
+    cls = {"nuc": SM.TimeReversibleNucleotide, "dinuc": SM.TimeReversibleDinucleotide, "codon": SM.TimeReversibleCodon}[b["kind"]]
+    kw.setdefault("recode_gaps", False)
+    if b.get("mprob_model"):
+        kw["mprob_model"] = b["mprob_model"]
+    if b.get("motifs"):
+        kw["motifs"] = list(b["motifs"])
+    try:
+        return cls(predicates=preds, name="built", **kw)
+    except ValueError as e:
+        if b.get("may_refuse"):
+            raise Refused(str(e)) from e
+        raise
+
+
 def build_lf(case):
-    from cogent3 import get_model, make_aligned_seqs, make_tree
+    from cogent3 import make_aligned_seqs, make_tree
 
     tree = make_tree(case["tree"])
     aln = make_aligned_seqs({n: s for n, s in case["aln"]}, moltype=case.get("moltype", "dna"))
     # keep the requested row order
     aln = aln.take_seqs([n for n, _ in case["aln"]])
     bins = case.get("bins")
-    if case["model"].startswith("DINUC:"):
-        # a reversible dinucleotide model (no named one is shipped): kappa on transitions, one of the three motif-prob models
-        from cogent3.evolve.predicate import MotifChange
-        from cogent3.evolve.substitution_model import TimeReversibleDinucleotide
-
-        sm = TimeReversibleDinucleotide(predicates={"kappa": MotifChange("A", "G") | MotifChange("C", "T")},
-                                        mprob_model=case["model"].split(":")[1], name="dinuc", recode_gaps=True)
-        lf = sm.make_likelihood_function(tree)
-    elif bins:
-        sm = get_model(case["model"], ordered_param="rate", distribution="gamma")
-        lf = sm.make_likelihood_function(tree, bins=bins["n"])
-    else:
-        sm = get_model(case["model"])
-        lf = sm.make_likelihood_function(tree)
+    sm = make_model(case)
+    lf = sm.make_likelihood_function(tree, bins=bins["n"]) if bins else sm.make_likelihood_function(tree)
     lf.set_alignment(aln)
     names = lf.get_param_names()
-    if case.get("mprobs") and "mprobs" in names:
+    has_mprobs = "mprobs" in names or "psmprobs" in names
+    if case.get("mprobs") and has_mprobs:
         lf.set_motif_probs(case["mprobs"])
-    elif "mprobs" in names and case.get("fix_mprobs", True) and case.get("moltype", "dna") != "protein" \
+    elif has_mprobs and case.get("fix_mprobs", True) and case.get("moltype", "dna") != "protein" \
             and not getattr(lf.model, "_equal_motif_probs", False) and case["model"] not in ("JC69", "K80"):
         # codon / dinucleotide models: fixed motif probabilities on the model's own input alphabet (nucleotides or
         # words), bounded away from zero -- never estimated from the alignment, so that original and transformed
@@ -67,8 +102,14 @@ def build_lf(case):
         lf.set_param_rule(p, edges=sc["edges"], value=v, is_constant=True)
         params[p]["scoped"] = {"edges": sc["edges"], "value": v}
     if bins:
+        if bins.get("bprobs"):
+            lf.set_param_rule("bprobs", value=list(bins["bprobs"]), is_constant=True)
         lf.set_param_rule("rate_shape", value=bins["shape"], is_constant=True)
     return lf, tree, aln, params
+
+
+MPROB_KIND = {"SimpleMotifProbModel": "tuple", "MonomerProbModel": "monomer", "PosnSpecificMonomerProbModel": "monomers",
+              "ConditionalMotifProbModel": "conditional"}
 
 
 def observe_lf(lf, tree, aln, params, light=False):
@@ -76,6 +117,23 @@ def observe_lf(lf, tree, aln, params, light=False):
 
     out = {}
     out["lnL"] = float(lf.get_log_likelihood())
+    edges = [e.name for e in lf.tree.get_edge_vector(include_root=False)]
+    out["lengths"] = {}
+    for e in edges:
+        try:
+            out["lengths"][e] = float(lf.get_param_value("length", edge=e))
+        except Exception:  # noqa: BLE001
+            out["lengths"][e] = None
+    out["recode_gaps"] = bool(lf.model.recode_gaps)
+    out["mprob_model"] = MPROB_KIND.get(type(lf.model.mprob_model).__name__, type(lf.model.mprob_model).__name__)
+    pname = "wprobs" if "wprobs" in lf.defn_for else "mprobs"
+    try:
+        pi = lf.get_param_value(pname)
+    except Exception:  # noqa: BLE001  (edge-scoped root probabilities)
+        pi = lf.get_param_value(pname, edge="root")
+    out["pi"] = [float(x) for x in numpy.asarray(pi, float).ravel()]
+    if light == "lnL":
+        return out
     out["site_liks"] = [float(x) for x in lf.get_full_length_likelihoods()]
     if light:
         return out
@@ -85,10 +143,10 @@ def observe_lf(lf, tree, aln, params, light=False):
     out["mlen"] = int(alphabet.get_motif_len())
     mt = aln.moltype
     out["amb"] = {str(k): [str(x) for x in v] for k, v in dict(mt.ambiguities).items()}
-    out["gaps"] = sorted(str(g) for g in mt.gaps)
+    # characters that convert_alignment recodes before the leaves are built (none when recode_gaps is off)
+    out["gaps"] = sorted(str(g) for g in mt.gaps) if lf.model.recode_gaps else []
     out["recode_to"] = str(mt.degenerate_from_seq(list(mt)))
     out["tree"] = tree_struct(lf.tree)
-    edges = [e.name for e in lf.tree.get_edge_vector(include_root=False)]
     bin_names = list(lf.bin_names)
     multi = len(bin_names) > 1
     psubs = []
@@ -99,23 +157,11 @@ def observe_lf(lf, tree, aln, params, light=False):
     out["bprobs"] = [float(x) for x in lf.get_param_value("bprobs")] if multi else [1.0]
     if multi:
         out["rates"] = [float(lf.get_param_value("rate", bin=b)) for b in bin_names]
-    pname = "wprobs" if "wprobs" in lf.defn_for else "mprobs"
-    try:
-        pi = lf.get_param_value(pname)
-    except Exception:  # noqa: BLE001  (edge-scoped root probabilities)
-        pi = lf.get_param_value(pname, edge="root")
-    out["pi"] = [float(x) for x in numpy.asarray(pi, float).ravel()]
     try:
         mp = lf.get_param_value("mprobs")
         out["mprobs_param"] = [float(x) for x in numpy.asarray(mp, float).ravel()]
     except Exception:  # noqa: BLE001
         out["mprobs_param"] = None
-    out["lengths"] = {}
-    for e in edges:
-        try:
-            out["lengths"][e] = float(lf.get_param_value("length", edge=e))
-        except Exception:  # noqa: BLE001
-            out["lengths"][e] = None
     out["params"] = params
     root = lf.get_param_value("root")
     out["root_index"] = [int(i) for i in root.index]
@@ -129,8 +175,12 @@ def observe_lf(lf, tree, aln, params, light=False):
 
 
 def run_case(case):
-    lf, tree, aln, params = build_lf(case)
-    return observe_lf(lf, tree, aln, params, light=bool(case.get("light")))
+    try:
+        lf, tree, aln, params = build_lf(case)
+    except Refused as e:
+        return {"refused": str(e)[:200]}
+    light = case.get("light")
+    return observe_lf(lf, tree, aln, params, light=light if light == "lnL" else bool(light))
 
 
 if __name__ == "__main__":
